@@ -449,9 +449,95 @@ def r6_populate(ctx):
     return r
 
 
+TYPES = ["I8", "I16", "I32", "I64", "U8", "U16", "U32", "U64", "F32", "F64"]
+
+
+def r7_type_tables(ctx):
+    r = Rule("C04.R7", "numeric-type dispatch tables are the identity",
+             "the range type written in the file (\"u8\", ...) decides parsing, conversion of a literal count and the generated "
+             "count type; one crossed arm in any 10-way table makes one numeric type behave as another", floor=6)
+    ast = ctx.ast
+    def table(fn):
+        m = find_first(fn.body, "Match")
+        out = {}
+        for a in (m or {"arms": []})["arms"]:
+            pt = show_pat(a["pat"])
+            pm = re.search(r"(?:RangeType|UntypedRangesInner)::(\w+)", pt)
+            key = pm.group(1) if pm else pt
+            bt = show(a["body"])
+            vals = set(re.findall(r"(?:RangeType|UntypedRangesInner)::(\w+)", bt))
+            lit = re.findall(r'"(\w+)"', bt)
+            q = [tok_text(x["tokens"]) for x in quotes_in(a["body"])]
+            out[key] = (vals, lit, q, bt)
+        return out
+    checks = [
+        ("Ranges::from_type", ast.fn(PR, "from_type", impl_self="Ranges"), "variant"),
+        ("Ranges::get_type", ast.fn(PR, "get_type", impl_self="Ranges"), "variant"),
+        ("Ranges::populate_with_new_key", ast.fn(PR, "populate_with_new_key", impl_self="Ranges"), "variant"),
+        ("Display for RangeType", ast.fn(PR, "fmt", impl_self="RangeType", impl_trait="Display"), "lit-lower"),
+        ("macro From<parser RangeType>", ast.fn(MR, "from", impl_self="RangeType"), "variant"),
+        ("macro RangeType::to_tokens", ast.fn(MR, "to_tokens", impl_self="RangeType"), "quote-lower"),
+    ]
+    for name, fn, mode in checks:
+        if fn is None:
+            r.missing(name)
+            continue
+        tab = table(fn)
+        bad = []
+        for t in TYPES:
+            vals, lit, q, bt = tab.get(t, (set(), [], [], ""))
+            if mode == "variant" and vals != {t}:
+                bad.append("%s -> %s" % (t, sorted(vals)))
+            if mode == "lit-lower" and lit != [t.lower()]:
+                bad.append("%s -> %s" % (t, lit))
+            if mode == "quote-lower" and q != [t.lower()]:
+                bad.append("%s -> %s" % (t, q))
+        if bad:
+            r.viol("R7:" + name, "table is not the identity: " + "; ".join(bad), file=fn.file, line=fn.line)
+        else:
+            r.inst(name, "identity on " + ", ".join(TYPES))
+    fn = ast.fn(PR, "from_string", impl_self="TypeOrRange")
+    if fn is None:
+        r.missing("TypeOrRange::from_string")
+    else:
+        m = find_first(fn.body, "Match")
+        got = {}
+        for a in (m or {"arms": []})["arms"]:
+            if a["pat"]["k"] == "PLit":
+                got[a["pat"]["text"].strip('"')] = re.findall(r"RangeType::(\w+)", show(a["body"]))
+        bad = [t for t in TYPES if got.get(t.lower()) != [t]]
+        if bad or flat(show(m["scrutinee"])) not in ("s.trim()", "s"):
+            r.viol("R7:TypeOrRange::from_string", "type names do not map to the same-named RangeType for %s" % bad, file=fn.file, line=fn.line)
+        else:
+            r.inst("TypeOrRange::from_string", "\"i8\"..\"f64\" -> same-named RangeType")
+    # integer generator vs float generator dispatch (view and string back-ends)
+    for name in ("to_token_stream", "as_string_impl"):
+        cands = [f for f in ast.fns_named(MR, name) if f.impl_self is None]
+        if not cands:
+            r.missing("ranges::" + name)
+            continue
+        fn = cands[0]
+        m = find_first(fn.body, "Match")
+        want_int = "to_tokens_integers" + ("_string" if name == "as_string_impl" else "")
+        want_flt = "to_tokens_floats" + ("_string" if name == "as_string_impl" else "")
+        bad = []
+        for a in (m or {"arms": []})["arms"]:
+            pm = re.search(r"UntypedRangesInner::(\w+)", show_pat(a["pat"]))
+            callee = [callee_path(c) for c in find_all(a["body"], "Call")]
+            args = [[show(x) for x in c["args"]] for c in find_all(a["body"], "Call")]
+            want = want_flt if pm and pm.group(1) in ("F32", "F64") else want_int
+            if callee != [want] or args != [["ranges", "&this.count_key", "strings_count"]]:
+                bad.append("%s -> %s%s" % (pm.group(1) if pm else "?", callee, args))
+        if bad or not m or len(m["arms"]) != 10:
+            r.viol("R7:ranges::" + name, "dispatch changed: " + "; ".join(bad), file=fn.file, line=fn.line)
+        else:
+            r.inst("ranges::" + name, "8 integer types -> %s, F32/F64 -> %s, same (ranges, count_key, strings_count)" % (want_int, want_flt))
+    return r
+
+
 def run(ctx):
     prog = ctx.mir("main")
-    return [r1_semantics(ctx), r2_first_match(ctx), r3_ends(ctx), r4_validation(ctx, prog), r5_conversions(ctx, prog), r6_populate(ctx)]
+    return [r1_semantics(ctx), r2_first_match(ctx), r3_ends(ctx), r4_validation(ctx, prog), r5_conversions(ctx, prog), r6_populate(ctx), r7_type_tables(ctx)]
 
 
 MANIFEST_ENTRY = {
